@@ -87,6 +87,10 @@ RefB == Inl4("ref", "beta", "http://l.ab/x?p=1&q=2", "Ti tle", "lab")
 FnA == Inl4("fn", "alpha", "first note", "first note", "na")
 FnB == Inl4("fn", "x1", "second *note* & more", "second <em>note</em> &amp; more", "nb")
 MathInl == {Inl4("math", m[1], m[2], "", x) : m \in {<<"x^2", "x^2">>, <<"a_1 *b* a_2 < c", "a_1 *b* a_2 &lt; c">>}, x \in {"paren", "brack", "dollar", "ddollar"}}
+\* a note whose own text calls another note (which is called from nowhere else): the inner note is numbered -- and listed -- after every note the body calls
+FnD == Inl4("fn", "see", "deep note", "deep note", "nd")
+FnC == Inl4("fn", "beta", "third note see[^nd]", "", "nc")
+Kids(n) == IF n.x = "nc" THEN <<FnD>> ELSE <<>>
 MmdInlines == MathInl \cup {RefA, RefB, FnA, FnB}
 LineSrc(il, us) == JoinWith([j \in 1 .. Len(il) |-> (IF il[j].k = "ref" /\ il[j].x = il[j].a THEN "[" \o il[j].a \o "][]" ELSE InlSrc(il[j], us))], " ")
 LineHtml(il, cx) == JoinWith([j \in 1 .. Len(il) |-> InlHtml(il[j], cx)], " ")
@@ -167,7 +171,9 @@ CollectB(b) == CASE b.k \in {"para", "atx", "setext"} -> CollectIl(b.il)
                  [] OTHER -> <<>>
 Collect(d) == CatSeq([j \in 1 .. Len(d) |-> CollectB(d[j])])
 Dedup(s) == LET RECURSIVE D(_, _) D(j, acc) == IF j > Len(s) THEN acc ELSE D(j + 1, IF \E q \in 1 .. Len(acc) : acc[q].x = s[j].x THEN acc ELSE Append(acc, s[j])) IN D(1, <<>>)
-Notes(d) == Dedup(SelectSeq(Collect(d), LAMBDA i : i.k = "fn"))
+\* notes in order of first call: those the body calls, then those first called from the text of a listed note (found while the list is written)
+CloseNotes(ns) == LET RECURSIVE C(_, _) C(j, acc) == IF j > Len(acc) THEN acc ELSE C(j + 1, acc \o SelectSeq(Kids(acc[j]), LAMBDA k : ~\E q \in 1 .. Len(acc) : acc[q].x = k.x)) IN C(1, ns)
+Notes(d) == CloseNotes(Dedup(SelectSeq(Collect(d), LAMBDA i : i.k = "fn")))
 Refs(d) == Dedup(SelectSeq(Collect(d), LAMBDA i : i.k = "ref"))
 Reverse(s) == [j \in 1 .. Len(s) |-> s[Len(s) + 1 - j]]
 \* definitions after the last block: notes in reverse order of first reference, then link definitions (title in double quotes)
@@ -215,7 +221,7 @@ Cx(d, mode, smart) == [mode |-> mode, smart |-> smart, notes |-> Notes(d)]
 \* the footnotes follow the body, numbered in order of first reference, each with its way back
 NotesHtml(d, cx) == IF cx.notes = <<>> THEN "" ELSE
   "<div class=\"footnotes\"><hr /><ol>"
-  \o Cat([j \in 1 .. Len(cx.notes) |-> "<li id=\"fn:" \o ToString(j) \o "\"><p>" \o cx.notes[j].c
+  \o Cat([j \in 1 .. Len(cx.notes) |-> "<li id=\"fn:" \o ToString(j) \o "\"><p>" \o (IF cx.notes[j].x = "nc" THEN "third note " \o InlHtml(FnD, cx) ELSE cx.notes[j].c)
           \o " <a href=\"#fnref:" \o ToString(j) \o "\" title=\"return to body\" class=\"reversefootnote\">&#160;&#8617;&#xfe0e;</a></p></li>"])
   \o "</ol></div>"
 FullHtml(d, mode, smart) == LET cx == Cx(d, mode, smart) IN DocHtml(d, cx) \o NotesHtml(d, cx)
@@ -273,6 +279,8 @@ Containers == {Quote(<<c>>) : c \in Simple \cup MmdLeaf \cup {SomeDl}} \cup {Quo
 Independent == Simple \cup {Quote(<<c>>) : c \in Leaf} \cup {SomeTable, SomeDl}        \* blocks that do not refer to one another: the compositionality family
 \* documents whose notes and references interleave: numbering by first reference, definitions shared
 NoteDocs == {<<Para(<<a>>), b, Para(<<c>>)>> : a \in {FnB, RefB}, b \in {Hr, SomeTable, Quote(<<Para(<<FnA>>)>>)}, c \in {FnA, FnB, RefA, RefB}}
+            \cup {<<Para(<<a>>), b, Para(<<c>>)>> : a \in {FnC, FnB}, b \in {Hr, Quote(<<Para(<<FnA>>)>>)}, c \in {FnC, RefA}}
+            \cup {<<Para(<<FnC>>)>>, <<List(FALSE, TRUE, <<Para(<<FnC>>), Para(<<FnA>>)>>)>>}
 Sps == {[us |-> u, bullet |-> bl, lead |-> ld, closed |-> cl, ul |-> n, fence |-> f, hr |-> h, pipes |-> pp] :
           u \in Pick(BOOLEAN), bl \in Pick({"*", "+", "-"}), ld \in Pick({0, 2}), cl \in Pick(0 .. 3), n \in Pick({2, 7}), f \in Pick({3, 5}), h \in Pick({1, 2, 3}), pp \in Pick(BOOLEAN)}
 DefaultSp == [us |-> FALSE, bullet |-> "*", lead |-> 0, closed |-> 0, ul |-> 5, fence |-> 3, hr |-> 1, pipes |-> TRUE]
